@@ -55,8 +55,12 @@ func (r *recStream) Send(m *spb.ModifyRequest) error {
 }
 
 func (r *recStream) Recv() (*spb.ModifyResponse, error) {
-	<-r.s.closed
-	return nil, io.EOF
+	select {
+	case <-r.s.closed:
+		return nil, io.EOF
+	case <-r.ctx.Done(): // a client.Client that a later Start replaced without Stop: released at the end of the case
+		return nil, r.ctx.Err()
+	}
 }
 
 func (r *recStream) CloseSend() error {
@@ -310,33 +314,70 @@ type snap struct {
 	copy proto.Message
 }
 
-type cl struct {
-	name     int
-	fc       *fluent.GRIBIClient
-	stub     *recStub
-	started  bool
+// inc is one client.Client of a fluent client: made by a successful Start, in place until the next one.
+type inc struct {
+	stub     *recStub // the stub this client.Client was given (a fresh one per Start)
+	everSent bool     // StartSending was called on it
 	sending  bool
-	fatals   int
-	mode     uint64
-	cur      *[2]uint64
-	wants    []want
-	nops     uint64
+	stopped  bool
+	cut      int    // number of queueing calls made before the first Stop (-1: never stopped)
+	wants    []want // the queueing calls made while it was in place, in order
 	seenOps  map[uint64]bool
-	preSendQ int
 	sentinel *spb.ModifyRequest // marker injected after StartSending: everything before it has reached the stream
 	hs       int                // messages the client sent by itself before the queue (session parameters, initial election id)
+	pending  []*spb.AFTOperation // every operation queued on it, by id (Status().PendingTransactions when its time was over)
 }
 
-// stream is what the Modify stream received, without the harness's marker.
-func (c *cl) stream() []*spb.ModifyRequest {
+// nSent is the number of queueing calls whose request can have reached the stream.
+func (in *inc) nSent() int {
+	switch {
+	case !in.everSent:
+		return 0
+	case in.cut >= 0:
+		return in.cut
+	}
+	return len(in.wants)
+}
+
+// stream is what the Modify stream of this client.Client received, without the harness's marker.
+func (in *inc) stream() []*spb.ModifyRequest {
 	out := []*spb.ModifyRequest{}
-	for _, m := range c.stub.snapshot() {
-		if m != c.sentinel {
+	for _, m := range in.stub.snapshot() {
+		if m != in.sentinel {
 			out = append(out, m)
 		}
 	}
 	return out
 }
+
+// unsent is what was queued on this client.Client and never reached its stream, by id.
+func (in *inc) unsent() (ops []*spb.AFTOperation, onStream int) {
+	sent := map[*spb.AFTOperation]bool{}
+	for _, m := range in.stream() {
+		for _, o := range m.GetOperation() {
+			sent[o] = true
+		}
+	}
+	for _, o := range in.pending {
+		if !sent[o] {
+			ops = append(ops, o)
+		}
+	}
+	return ops, len(sent)
+}
+
+type cl struct {
+	name    int
+	fc      *fluent.GRIBIClient
+	started bool // a Start succeeded: g.c exists
+	fatals  int
+	mode    uint64
+	cur     *[2]uint64
+	incs    []*inc // one per successful Start, oldest first
+}
+
+// inc is the client.Client in place (c.started only).
+func (c *cl) inc() *inc { return c.incs[len(c.incs)-1] }
 
 type protoPair struct {
 	op    *spb.AFTOperation
@@ -359,6 +400,9 @@ type exec struct {
 	callsAfterQueue   int
 	repeatedSetter    bool
 	stampedFromClient int
+	restarts          int  // successful Starts on a client that had been started before
+	opsAcrossRestart  bool // one fluent client queued operations on at least two of its client.Clients
+	sentAcrossRestart bool // ... and at least two of its Modify streams received operations
 }
 
 func (e *exec) problem(f string, a ...any) { e.problems = append(e.problems, fmt.Sprintf(f, a...)) }
@@ -371,8 +415,7 @@ func (e *exec) client(name int) *cl {
 	if c := e.clients[name]; c != nil {
 		return c
 	}
-	c := &cl{name: name, fc: fluent.NewClient(), stub: newStub(), seenOps: map[uint64]bool{}}
-	c.fc.Connection().WithStub(c.stub)
+	c := &cl{name: name, fc: fluent.NewClient()}
 	e.clients[name] = c
 	e.order = append(e.order, name)
 	return c
@@ -391,9 +434,9 @@ func (e *exec) afterQueue(c *cl, step int) {
 	for _, p := range st.PendingTransactions {
 		switch v := p.(type) {
 		case *client.PendingOp:
-			if !c.seenOps[v.Op.GetId()] {
-				c.seenOps[v.Op.GetId()] = true
-				e.keep(fmt.Sprintf("operation %d of client %d queued at step %d", v.Op.GetId(), c.name, step), v.Op)
+			if in := c.inc(); !in.seenOps[v.Op.GetId()] {
+				in.seenOps[v.Op.GetId()] = true
+				e.keep(fmt.Sprintf("operation %d of client %d (start %d) queued at step %d", v.Op.GetId(), c.name, len(c.incs), step), v.Op)
 			}
 		case *client.ElectionReqDetails:
 			e.keep(fmt.Sprintf("election id of client %d queued by step %d", c.name, step), v.ID)
@@ -404,34 +447,63 @@ func (e *exec) afterQueue(c *cl, step int) {
 	}
 }
 
+// pendingOps reads every operation queued on the client.Client in place (the stub never answers, so
+// none is ever cleared), by id.
+func (e *exec) pendingOps(c *cl, step int) []*spb.AFTOperation {
+	var st *client.ClientStatus
+	_, odd := capture(func(t testing.TB) { st = c.fc.Status(t) })
+	if odd != "" || st == nil {
+		e.problem("step %d: Status: %s", step, odd)
+		return nil
+	}
+	out := []*spb.AFTOperation{}
+	for _, p := range st.PendingTransactions {
+		if v, ok := p.(*client.PendingOp); ok {
+			out = append(out, v.Op)
+		}
+	}
+	return out
+}
+
 func (e *exec) startSending(c *cl, step int) {
+	in := c.inc()
 	_, odd := capture(func(t testing.TB) { c.fc.StartSending(e.ctx, t) })
 	if odd != "" {
 		e.problem("step %d: StartSending: %s", step, odd)
 		return
 	}
-	c.sending = true
-	c.preSendQ = len(c.wants)
+	in.sending, in.everSent = true, true
 	// a marker request (InjectRequest: queued as it is) tells when the handshake and the flushed queue
 	// have all reached the stream
-	c.sentinel = &spb.ModifyRequest{}
-	capture(func(t testing.TB) { c.fc.Modify().InjectRequest(t, c.sentinel) })
+	in.sentinel = &spb.ModifyRequest{}
+	capture(func(t testing.TB) { c.fc.Modify().InjectRequest(t, in.sentinel) })
 	deadline := time.Now().Add(10 * time.Second)
 	for {
-		msgs := c.stub.snapshot()
-		if len(msgs) > 0 && msgs[len(msgs)-1] == c.sentinel {
+		msgs := in.stub.snapshot()
+		if len(msgs) > 0 && msgs[len(msgs)-1] == in.sentinel {
 			break
 		}
 		if time.Now().After(deadline) {
 			e.problem("step %d: client %d: the Modify stream did not receive the queue", step, c.name)
 			return
 		}
-		c.stub.wait(len(msgs) + 1)
+		in.stub.wait(len(msgs) + 1)
 	}
-	msgs := c.stream()
-	c.hs = len(msgs) - len(c.wants)
+	msgs := in.stream()
+	in.hs = len(msgs) - len(in.wants)
 	for i, m := range msgs {
-		e.keep(fmt.Sprintf("ModifyRequest %d of client %d (flushed by step %d)", i, c.name, step), m)
+		e.keep(fmt.Sprintf("ModifyRequest %d of client %d, start %d (flushed by step %d)", i, c.name, len(c.incs), step), m)
+	}
+}
+
+// stopClient calls Stop on the fluent client (with a watchdog).
+func (e *exec) stopClient(c *cl) {
+	done := make(chan struct{})
+	go func() { defer close(done); capture(func(t testing.TB) { c.fc.Stop(t) }) }()
+	select {
+	case <-done:
+	case <-time.After(10 * time.Second):
+		e.problem("client %d: Stop did not return", c.name)
 	}
 }
 
@@ -492,11 +564,31 @@ func (e *exec) run(p Prog) {
 			e.clientStep(i, s)
 		}
 	}
-	// end of program: every started client is told to send, so that its queue becomes visible
+	// end of program: every started client that is neither sending nor stopped is told to send, so
+	// that its queue becomes visible
 	for _, name := range e.order {
 		c := e.clients[name]
-		if c.started && !c.sending {
+		if !c.started {
+			continue
+		}
+		if in := c.inc(); !in.sending && !in.stopped {
 			e.startSending(c, len(p.Steps))
+		}
+		c.inc().pending = e.pendingOps(c, len(p.Steps))
+		n, ns := 0, 0
+		for _, in := range c.incs {
+			if len(in.pending) > 0 {
+				n++
+			}
+			if u, onStream := in.unsent(); onStream > 0 && len(u) < len(in.pending) {
+				ns++
+			}
+		}
+		if n >= 2 {
+			e.opsAcrossRestart = true
+		}
+		if ns >= 2 {
+			e.sentAcrossRestart = true
 		}
 	}
 }
@@ -516,21 +608,55 @@ func (e *exec) clientStep(i int, s Step) {
 	case "WithFIBACK":
 		c.fc.Connection().WithFIBACK()
 	case "Start":
+		// every Start hands the fluent client a stub of its own, so that each client.Client has its own
+		// recorded stream; the client.Client in place is read out before it is replaced
+		var old []*spb.AFTOperation
 		if c.started {
-			e.stats["skipped_second_start"]++
-			return
+			old = e.pendingOps(c, i)
 		}
+		stub := newStub()
+		c.fc.Connection().WithStub(stub)
 		f, odd := capture(func(t testing.TB) { c.fc.Start(e.ctx, t) })
 		if odd != "" {
 			e.problem("step %d: Start: %s", i, odd)
 		}
 		c.fatals += f
-		c.started = f == 0 && odd == ""
-		if f > 0 {
+		switch {
+		case f > 0:
 			e.stats["start_fatal"]++
+			if c.started {
+				e.stats["start_fatal_on_started_client"]++
+			}
+		case odd == "":
+			if c.started {
+				e.restarts++
+				e.stats["restart"]++
+				if !c.inc().stopped {
+					e.stats["restart_without_stop"]++
+				}
+				c.inc().pending = old
+			}
+			c.started = true
+			c.incs = append(c.incs, &inc{stub: stub, cut: -1, seenOps: map[uint64]bool{}})
 		}
+	case "Stop":
+		e.stopClient(c) // before the first Start g.c is nil and nothing happens
+		if !c.started {
+			e.stats["stop_not_started"]++
+			return
+		}
+		in := c.inc()
+		if !in.stopped {
+			in.stopped = true
+			in.cut = len(in.wants)
+		} else {
+			e.stats["stop_again"]++
+		}
+		in.sending = false
 	case "StartSending":
-		if !c.started || c.sending {
+		// on a stopped client.Client the call is not a program (Close has closed the channel to the
+		// sender): the client has to be started again first
+		if !c.started || c.inc().sending || c.inc().stopped {
 			e.stats["skipped_startsending"]++
 			return
 		}
@@ -546,7 +672,7 @@ func (e *exec) clientStep(i int, s Step) {
 		}
 		c.fatals += f
 		c.cur = &[2]uint64{s.n(1), s.n(0)}
-		c.wants = append(c.wants, want{step: i, elec: &[2]uint64{s.n(1), s.n(0)}})
+		c.inc().wants = append(c.inc().wants, want{step: i, elec: &[2]uint64{s.n(1), s.n(0)}})
 		e.queued(c, i)
 	case "AddEntry", "ReplaceEntry", "DeleteEntry":
 		if !c.started {
@@ -599,7 +725,7 @@ func (e *exec) clientStep(i int, s Step) {
 			e.problem("step %d: %s: fatal=%d %s", i, s.M, f, odd)
 		}
 		c.fatals += f
-		c.wants = append(c.wants, w)
+		c.inc().wants = append(c.inc().wants, w)
 		e.queuedOps += len(entries)
 		e.stats[fmt.Sprintf("ops_per_request_%d", len(entries))]++
 		e.queued(c, i)
@@ -608,16 +734,20 @@ func (e *exec) clientStep(i int, s Step) {
 
 // queued is called after a call that queues exactly one ModifyRequest.
 func (e *exec) queued(c *cl, step int) {
-	if c.sending {
+	in := c.inc()
+	switch {
+	case in.sending:
 		e.stats["queued_while_sending"]++
 		// handshake + marker + everything queued so far
-		if !c.stub.wait(c.hs + 1 + len(c.wants)) {
-			e.problem("step %d: client %d: the Modify stream received %d messages, %d expected", step, c.name, len(c.stream()), c.hs+len(c.wants))
+		if !in.stub.wait(in.hs + 1 + len(in.wants)) {
+			e.problem("step %d: client %d: the Modify stream received %d messages, %d expected", step, c.name, len(in.stream()), in.hs+len(in.wants))
 		}
-		if msgs := c.stream(); len(msgs) > 0 {
-			e.keep(fmt.Sprintf("ModifyRequest %d of client %d (sent by step %d)", len(msgs)-1, c.name, step), msgs[len(msgs)-1])
+		if msgs := in.stream(); len(msgs) > 0 {
+			e.keep(fmt.Sprintf("ModifyRequest %d of client %d, start %d (sent by step %d)", len(msgs)-1, c.name, len(c.incs), step), msgs[len(msgs)-1])
 		}
-	} else {
+	case in.stopped:
+		e.stats["queued_on_stopped_client"]++
+	default:
 		e.stats["queued_before_sending"]++
 	}
 	e.afterQueue(c, step)
@@ -672,13 +802,7 @@ func (e *exec) checkSnaps(when string) {
 func (e *exec) stop() {
 	for _, c := range e.clients {
 		if c.started {
-			done := make(chan struct{})
-			go func() { defer close(done); capture(func(t testing.TB) { c.fc.Stop(t) }) }()
-			select {
-			case <-done:
-			case <-time.After(10 * time.Second):
-				e.problem("client %d: Stop did not return", c.name)
-			}
+			e.stopClient(c)
 		}
 	}
 	e.cancel()
